@@ -59,13 +59,17 @@ C07  Name obfuscation is a consistent, capture-free renaming — property theore
                                  renaming: every declaration and reference is renamed by its own environment record and NO reference is captured.
                                  Proved from `remap_injective_visible`, the table facts, the leak invariant and declared ⊆ referenced
                                  (`finalize_chainGood`, `lookup_link`): the replacement tables never enter the hypotheses.
-  binding_preserved_simple_partial   walk facts + `noArgsValue` + `isoCond` (tables one-to-one per record / identity where names are kept)
-                                 ⇒ `bindingPreserved`.
+  aligned_of_walk_facts          simple programs: walk facts + `noArgsValue` ⇒ `alignedOf fl p = some true` — `condProgram` as above AND `isoCond`:
+                                 every binder ES5 resolution reports names a declared symbol of the scope record its (kind, scope) determines
+                                 (`program_bok`, one more induction over the resolver), on those the record renaming is one-to-one
+                                 (`mapBinder_inj`, again from `remap_injective_visible`) and keeps free names, `arguments` and — without
+                                 obfuscate_globals — top-level names (`root_table_nil`).
+  binding_preserved_simple_partial   simple programs: walk facts + `noArgsValue` ⇒ `bindingPreserved fl p = some true`.  The only hypotheses
+                                 left are book-keeping (what the prewalk registered where) and the >53^8-names corner.
 STILL MISSING for `aligned_of_not_excluded`:
   (i)  the walk facts themselves from the Gen.Defs-driven walk (`factsProgram` is evaluated per program: driver `facts`, obligation in the
-       check) — needs a per-node-kind analysis of the rule interpreter (which attributes a definition walks, where PushScope/PopScope sit);
-  (ii) `isoCond` from the one-to-one tables (needs "every binder of Spec.Scope's output names a declared symbol of its record", one more
-       induction over the resolver);
+       check) — needs a per-node-kind analysis of the rule interpreter (which attributes a definition walks, where PushScope/PopScope sit)
+       and a tree-in-vocabulary hypothesis;
   (iii) the same link for catch clauses, labels and named function expressions (environment records without / with shared scopes).
   The check evaluates `alignedOf` on every generated program not in `excluded` (obligation `model: not excluded implies aligned`).
 -/
@@ -75,6 +79,7 @@ import CalmVerif.Proofs.ObfRename
 import CalmVerif.Proofs.ObfBindIso
 import CalmVerif.Proofs.ObfExcluded
 import CalmVerif.Proofs.ObfSimple4
+import CalmVerif.Proofs.ObfIso4
 namespace CalmVerif.Props.C07
 open CalmVerif CalmVerif.Unparse CalmVerif.Obf
 
@@ -304,18 +309,22 @@ theorem capture_free_of_walk_facts (fl : Flags) (program : Val) (st : St) (fin :
     condProgram (tauFin fin) (rhoFin fin) program = true :=
   cond_of_walk_facts fl program st fin charset_ok hpre hfin hna hfacts
 
+/-- **aligned_of_walk_facts** (simple programs; Proofs/ObfIso*.lean for the `isoCond` half). -/
+theorem aligned_of_walk_facts (fl : Flags) (program : Val) (st : St) (fin : Final)
+    (hpre : prewalk tablesGen fl.shadowFuncname program = .ok st)
+    (hfin : finalize Gen.ObfData.charset fl st = .ok fin) (hna : noArgsValue fin = true)
+    (hfacts : ∀ g, st.stack = [g] → factsProgram fin (recsOf [] (closeFrame g) fin.tree) program = true) :
+    alignedOf fl program = some true :=
+  Obf.aligned_of_walk_facts fl program st fin charset_ok hpre hfin hna hfacts
+
 /-- **binding_preserved_simple_partial**: for simple programs the binding structure is preserved as soon as the walk facts
-hold, no generated name is `arguments`, and the tables are one-to-one / the identity where names are kept. -/
+hold and no generated name is `arguments`. -/
 theorem binding_preserved_simple_partial (fl : Flags) (program : Val) (st : St) (fin : Final)
     (hpre : prewalk tablesGen fl.shadowFuncname program = .ok st)
     (hfin : finalize Gen.ObfData.charset fl st = .ok fin) (hna : noArgsValue fin = true)
-    (hfacts : ∀ g, st.stack = [g] → factsProgram fin (recsOf [] (closeFrame g) fin.tree) program = true)
-    (hiso : isoCond (tauFin fin) fl.obfuscateGlobals (Spec.Scope.resolveProgram program) = true) :
-    bindingPreserved fl program = some true := by
-  apply binding_preserved_partial
-  have hc := capture_free_of_walk_facts fl program st fin hpre hfin hna hfacts
-  unfold alignedOf prewalkHook
-  simp only [hpre, hfin, hc, hiso, Bool.and_self]
+    (hfacts : ∀ g, st.stack = [g] → factsProgram fin (recsOf [] (closeFrame g) fin.tree) program = true) :
+    bindingPreserved fl program = some true :=
+  binding_preserved_partial fl program (aligned_of_walk_facts fl program st fin hpre hfin hna hfacts)
 
 /-! ### negation witnesses of the known findings (evaluated in the kernel) -/
 
